@@ -174,7 +174,14 @@ def text_replay(prop):
     return lambda v: {"pipeline": "text", "q": v.get("q"), "judge": "JudgeEnum", "prop": prop}
 
 
-def stage_judge_enum(run, resfile, prop, name="judge_enum", keep=False):
+def family_replay(prop):
+    def mk(v):
+        m = re.match(r"(\w+) n=(\d+):", v.get("q") or "")
+        return {"pipeline": "family", "family": m.group(1), "n": int(m.group(2)), "prop": prop, "q": v.get("q")} if m else None
+    return mk
+
+
+def stage_judge_enum(run, resfile, prop, name="judge_enum", keep=False, replay=None):
     if count_lines(resfile) == 0:
         run.stage(name, lines=0)
         return
@@ -187,7 +194,7 @@ def stage_judge_enum(run, resfile, prop, name="judge_enum", keep=False):
     run.distinct += j["accepted"]
     run.stage(name, prop=prop, accepted_trees_judged=j["accepted"], failures=j["failures"], known=j["known"], secs=j["secs"], jvms=j["jvms"])
     for vf in vfiles:
-        run.add_verdicts(vf, text_replay(prop))
+        run.add_verdicts(vf, replay or text_replay(prop))
 
 
 # ------------------------------------------------------------------------------------------------
@@ -202,14 +209,16 @@ CONSTANTS
   WsPerTree = %(ws)d
   Sample = %(sample)d
   Muts = %(muts)d
+  Suffix = %(suffix)s
 POSTCONDITION Post
 CHECK_DEADLOCK FALSE
 """
 
 
-def stage_gen_trees(run, kinds, depth, ws=1, sample=0, muts=0, name="gen_trees"):
+def stage_gen_trees(run, kinds, depth, ws=1, sample=0, muts=0, name="gen_trees", suffix=True):
     d = run.sub(name)
-    out, rc, secs = run.tlc(d, "GenTrees", GEN_CFG % dict(kinds=tla_set(kinds), depth=depth, seed=run.seed, ws=ws, sample=sample, muts=muts),
+    out, rc, secs = run.tlc(d, "GenTrees", GEN_CFG % dict(kinds=tla_set(kinds), depth=depth, seed=run.seed, ws=ws, sample=sample, muts=muts,
+                                                         suffix="TRUE" if suffix else "FALSE"),
                             workers=1, timeout=3000, seed=run.seed, xss=True)
     m = re.search(r'"GENERATED (.*)"', out)
     if not m:
@@ -220,11 +229,13 @@ def stage_gen_trees(run, kinds, depth, ws=1, sample=0, muts=0, name="gen_trees")
     return os.path.join(d, "cases.ndjson"), g
 
 
-def stage_groups(run, casefile, trace_every=0, name="parse_groups", observe=False):
+def stage_groups(run, casefile, trace_every=0, name="parse_groups", observe=False, sql=False):
     res = os.path.join(run.work, name + ".ndjson")
     a = ["parse-groups", "-in", casefile, "-out", res]
     if observe:
         a.append("-observe")
+    if sql:
+        a.append("-sql")
     tr = None
     if trace_every:
         tr = os.path.join(run.work, name + "_trace.ndjson")
@@ -315,8 +326,12 @@ def replay_case(run, rp):
             raise Broken("replay: group %d not found" % rp["n"])
         cf = os.path.join(sub.work, "one.ndjson")
         open(cf, "w").write(line)
-        res, _, _ = stage_groups(sub, cf)
+        res, _, _ = stage_groups(sub, cf, observe=True, sql=True)
         stage_judge_trees(sub, res, rp["prop"], cf)
+    elif rp["pipeline"] == "family":
+        res = os.path.join(sub.work, "fam.ndjson")
+        sub.harness(["parse-families", "-sizes", str(rp["n"]), "-only", rp["family"], "-out", res], timeout=600)
+        stage_judge_enum(sub, res, rp["prop"])
     else:
         raise Broken("unknown replay pipeline " + rp["pipeline"])
     return bool(sub.failures) or bool(sub.known)
@@ -324,3 +339,4 @@ def replay_case(run, rp):
 
 REPLAYERS["text"] = replay_case
 REPLAYERS["group"] = replay_case
+REPLAYERS["family"] = replay_case
